@@ -115,6 +115,8 @@ pub struct Config {
     pub dt: bool,
     pub hc: bool,
     pub wb: usize,
+    /// an upgrade service is configured (`HttpServiceBuilder::upgrade`)
+    pub up: bool,
 }
 
 /// deterministic body byte: lower-case letters only (never looks like a response head)
@@ -296,6 +298,8 @@ pub struct SvcLog {
     pub reads: Vec<ReadLog>,
     /// length of the socket's written bytes at the moment of each service call
     pub wire_at_call: Vec<usize>,
+    /// requests handed to the upgrade service: (rid, bytes of the read buffer handed over)
+    pub upgrades: Vec<(Option<usize>, usize)>,
 }
 
 pub struct Shared {
@@ -540,6 +544,77 @@ impl Service<Request> for ExpectSvc {
     }
 }
 
+
+// ---------------------------------------------------------------------------------------------
+// upgrade service: writes a fixed `101` head (+ `x-rid`) and the marker `UPGRADED` through the
+// `Framed` it was given (which carries whatever the dispatcher had encoded but not yet flushed),
+// flushes and finishes
+
+pub const UPGRADE_MARKER: &[u8] = b"upgraded";
+
+impl std::fmt::Display for SvcErr {
+    fn fmt(&self, f: &mut std::fmt::Formatter<'_>) -> std::fmt::Result {
+        write!(f, "SvcErr({})", self.0)
+    }
+}
+
+pub struct UpgradeSvc(pub Rc<Shared>);
+
+pub struct UpgradeFut {
+    framed: actix_codec::Framed<Sock, actix_http::h1::Codec>,
+    rid: Option<usize>,
+    encoded: bool,
+}
+
+impl Future for UpgradeFut {
+    type Output = Result<(), SvcErr>;
+    fn poll(mut self: Pin<&mut Self>, cx: &mut Context<'_>) -> Poll<Self::Output> {
+        use actix_http::h1::Message;
+        let this = &mut *self;
+        if !this.encoded {
+            this.encoded = true;
+            let mut res = Response::build(StatusCode::SWITCHING_PROTOCOLS)
+                .insert_header(("x-rid", this.rid.map(|r| r.to_string()).unwrap_or_else(|| "?".into())))
+                .finish()
+                .drop_body();
+            res.head_mut().set_connection_type(ConnectionType::Upgrade);
+            if Pin::new(&mut this.framed).write(Message::Item((res, BodySize::Stream))).is_err() {
+                return Poll::Ready(Err(SvcErr(500)));
+            }
+            if Pin::new(&mut this.framed)
+                .write(Message::<(Response<()>, BodySize)>::Chunk(Some(Bytes::from_static(UPGRADE_MARKER))))
+                .is_err()
+            {
+                return Poll::Ready(Err(SvcErr(500)));
+            }
+        }
+        match Pin::new(&mut this.framed).flush::<Message<(Response<()>, BodySize)>>(cx) {
+            Poll::Pending => Poll::Pending,
+            Poll::Ready(Ok(())) => Poll::Ready(Ok(())),
+            Poll::Ready(Err(_)) => Poll::Ready(Err(SvcErr(500))),
+        }
+    }
+}
+
+impl Service<(Request, actix_codec::Framed<Sock, actix_http::h1::Codec>)> for UpgradeSvc {
+    type Response = ();
+    type Error = SvcErr;
+    type Future = UpgradeFut;
+    fn poll_ready(&self, _: &mut Context<'_>) -> Poll<Result<(), Self::Error>> {
+        Poll::Ready(Ok(()))
+    }
+    fn call(&self, (req, framed): (Request, actix_codec::Framed<Sock, actix_http::h1::Codec>)) -> Self::Future {
+        let rid = rid_of(&req).filter(|i| *i < self.0.handlers.len());
+        let minor = if req.version() == actix_http::Version::HTTP_10 { 0 } else { 1 };
+        {
+            let mut lg = self.0.log.borrow_mut();
+            lg.upgrades.push((rid, 0));
+            lg.seen.push((rid, req.method().as_str().to_owned(), req.path().to_owned(), minor));
+        }
+        UpgradeFut { framed, rid, encoded: false }
+    }
+}
+
 // ---------------------------------------------------------------------------------------------
 // driver
 
@@ -572,7 +647,8 @@ pub fn simulate(
     let (done, polls) = crate::common::block_on_system(async move {
         let sh_a = sh2.clone();
         let sh_b = sh2.clone();
-        let factory = HttpService::build()
+        let sh_c = sh2.clone();
+        let builder = HttpService::build()
             .keep_alive(if cfg.ka { KeepAlive::Timeout(Duration::from_secs(3600)) } else { KeepAlive::Disabled })
             .client_request_timeout(Duration::from_secs(3600))
             .client_disconnect_timeout(if cfg.dt { Duration::from_secs(3600) } else { Duration::ZERO })
@@ -581,14 +657,27 @@ pub fn simulate(
             .expect(fn_factory(move || {
                 let s = sh_a.clone();
                 async move { Ok::<_, ()>(ExpectSvc(s)) }
-            }))
-            .h1(fn_factory(move || {
-                let s = sh_b.clone();
-                async move { Ok::<_, ()>(Svc(s)) }
             }));
-        let svc = factory.new_service(()).await.unwrap();
-        let fut = svc.call((sh2.sock.clone(), None));
-        let mut fut = Box::pin(fut);
+        let svc_factory = fn_factory(move || {
+            let s = sh_b.clone();
+            async move { Ok::<_, ()>(Svc(s)) }
+        });
+        type ConnFut = Pin<Box<dyn Future<Output = Result<(), actix_http::error::DispatchError>>>>;
+        let fut: ConnFut = if cfg.up {
+            let factory = builder
+                .upgrade(fn_factory(move || {
+                    let s = sh_c.clone();
+                    async move { Ok::<_, ()>(UpgradeSvc(s)) }
+                }))
+                .h1(svc_factory);
+            let svc = factory.new_service(()).await.unwrap();
+            Box::pin(svc.call((sh2.sock.clone(), None)))
+        } else {
+            let factory = builder.h1(svc_factory);
+            let svc = factory.new_service(()).await.unwrap();
+            Box::pin(svc.call((sh2.sock.clone(), None)))
+        };
+        let mut fut = fut;
         let flag = Arc::new(Flag(AtomicBool::new(false)));
         let waker = Waker::from(flag.clone());
         let mut cx = Context::from_waker(&waker);
